@@ -534,11 +534,14 @@ macro_rules! inv_get_value_narrow {
 }
 // @unit name=bitreader_inv_get_value_u8 props=C05,C08 kind=bounded bound=one_step_from_any_state_buffer<=12_bytes fns=BitReader::get_value,FromBitpacked<u8>::from_u64 timeout=480 mem=3
 inv_get_value_narrow!(bitreader_inv_get_value_u8, u8, 8, x => x as u64);
-// @unit name=bitreader_inv_get_value_u16 props=C05,C08 kind=bounded bound=one_step_from_any_state_buffer<=12_bytes fns=BitReader::get_value,FromBitpacked<u16>::from_u64 timeout=480 mem=3
+// NOT CONFIRMED: same macro as the confirmed _u8/_bool instances; not run yet
+// @unit name=bitreader_inv_get_value_u16 props=C05,C08 kind=bounded bound=one_step_from_any_state_buffer<=12_bytes fns=BitReader::get_value,FromBitpacked<u16>::from_u64 timeout=900 mem=3 tier=thorough
 inv_get_value_narrow!(bitreader_inv_get_value_u16, u16, 16, x => x as u64);
-// @unit name=bitreader_inv_get_value_i32 props=C05,C08 kind=bounded bound=one_step_from_any_state_buffer<=12_bytes fns=BitReader::get_value,FromBitpacked<i32>::from_u64 timeout=480 mem=3
+// NOT CONFIRMED: same macro as the confirmed _u8/_bool instances; not run yet
+// @unit name=bitreader_inv_get_value_i32 props=C05,C08 kind=bounded bound=one_step_from_any_state_buffer<=12_bytes fns=BitReader::get_value,FromBitpacked<i32>::from_u64 timeout=900 mem=3 tier=thorough
 inv_get_value_narrow!(bitreader_inv_get_value_i32, i32, 32, x => x as u32 as u64);
-// @unit name=bitreader_inv_get_value_i64 props=C05,C08 kind=bounded bound=one_step_from_any_state_buffer<=12_bytes fns=BitReader::get_value,FromBitpacked<i64>::from_u64 timeout=480 mem=3
+// NOT CONFIRMED: same macro as the confirmed _u8/_bool instances; not run yet
+// @unit name=bitreader_inv_get_value_i64 props=C05,C08 kind=bounded bound=one_step_from_any_state_buffer<=12_bytes fns=BitReader::get_value,FromBitpacked<i64>::from_u64 timeout=900 mem=3 tier=thorough
 inv_get_value_narrow!(bitreader_inv_get_value_i64, i64, 64, x => x as u64);
 // @unit name=bitreader_inv_get_value_bool props=C05,C08 kind=bounded bound=one_step_from_any_state_buffer<=12_bytes fns=BitReader::get_value,FromBitpacked<bool>::from_u64 timeout=480 mem=3
 inv_get_value_narrow!(bitreader_inv_get_value_bool, bool, 1, x => x as u64);
@@ -677,7 +680,8 @@ fn bitreader_get_vlq_int_total() {
 // terminator iff a terminator exists in the aligned remainder, else None with the cursor at the
 // alignment boundary; get_zigzag_vlq_int = the zig-zag decoding of the same. INV afterwards.
 // (passes on the unchanged tree)
-// @unit name=bitreader_inv_get_vlq_int_le10 props=C05,C08 kind=bounded bound=one_step_from_any_state_buffer<=10_bytes fns=BitReader::get_vlq_int,BitReader::get_zigzag_vlq_int tier=quick timeout=480 mem=3
+// NOT CONFIRMED: not run in the inductive form (its prefix-read predecessor passed in 63-166 s)
+// @unit name=bitreader_inv_get_vlq_int_le10 props=C05,C08 kind=bounded bound=one_step_from_any_state_buffer<=10_bytes fns=BitReader::get_vlq_int,BitReader::get_zigzag_vlq_int tier=thorough timeout=900 mem=3
 #[kani::proof]
 #[kani::unwind(12)]
 fn bitreader_inv_get_vlq_int_le10() {
@@ -735,37 +739,38 @@ fn bitreader_inv_skip() {
 // untouched; the cursor advances by m*nb bits; INV afterwards; never panics. Two families of start
 // states/batch sizes keep the loops short (each loop iteration inlines a get_value; a batch of 11 from any
 // state, and even 8..=10 values with a possibly short buffer, exceeded 10 GB):
-//  _small : ANY INV state, L <= 2, every width 0..=8  (alignment loop, trailing loop, short buffers; no fast path)
+//  _small_w5 : ANY INV state, L <= 2, width 5  (alignment loop, trailing loop, short buffers; no fast path)
 //  _fast_w: any BYTE-ALIGNED INV state (bit_offset = 0, any byte_offset) holding >= 8 more values of width
 //           W, L = 8 (exactly one unpack8 call, the SIMD-friendly path)
-// @unit name=bitreader_inv_get_batch_u8_small props=C05,C08 kind=bounded bound=batch<=2_any_state_buffer<=12_bytes fns=BitReader::get_batch tier=thorough timeout=900 mem=6
+// (batch <= 2 with a SYMBOLIC width also exceeded 10 GB: the width is concrete here)
+// NOT CONFIRMED: get_batch units are heavy (fast_w1 passed in 992 s with 44507 checks; w3/w8 timed out just below 1000 s; the symbolic-width small variant exceeded 10 GB); not confirmed under load
+// @unit name=bitreader_inv_get_batch_u8_small_w5 props=C05,C08 kind=bounded bound=width=5_batch<=2_any_state_buffer<=12_bytes fns=BitReader::get_batch tier=thorough timeout=900 mem=8
 #[kani::proof]
 #[kani::unwind(4)]
-fn bitreader_inv_get_batch_u8_small() {
+fn bitreader_inv_get_batch_u8_small_w5() {
+    const NB: usize = 5;
     let (mut r, a, len, pos) = any_reader::<12>();
     let init: [u8; 2] = kani::any();
     let mut batch = init;
     let l: usize = kani::any();
     kani::assume(l <= 2);
-    let nb: usize = kani::any();
-    kani::assume(nb <= 8);
-    let m = r.get_batch::<u8>(&mut batch[..l], nb);
-    assert!(is_batch_count(m, l, nb, len * 8 - pos));
+    let m = r.get_batch::<u8>(&mut batch[..l], NB);
+    assert!(is_batch_count(m, l, NB, len * 8 - pos));
     let i: usize = kani::any();
     kani::assume(i < 2);
     let jb: usize = kani::any();
     kani::assume(jb < 8);
     if i < m {
-        assert!(b64(batch[i] as u64, jb) == (jb < nb && bit(&a, pos + i * nb + jb)));
+        assert!(b64(batch[i] as u64, jb) == (jb < NB && bit(&a, pos + i * NB + jb)));
     } else {
         assert!(batch[i] == init[i]);
     }
-    assert!(r.byte_offset * 8 + r.bit_offset == pos + m * nb);
+    assert!(r.byte_offset * 8 + r.bit_offset == pos + m * NB);
     assert!(inv(&r, &a, len));
-    kani::cover!(m == 2 && nb == 8 && pos == 61);
-    kani::cover!(m == 2 && nb == 5 && pos == 64 - 5); // one alignment read, one trailing read
-    kani::cover!(m == 1 && l == 2 && nb == 7);
-    kani::cover!(nb == 0 && m == 2);
+    kani::cover!(m == 2 && pos == 61);
+    kani::cover!(m == 2 && pos == 64 - 5); // one alignment read, one trailing read
+    kani::cover!(m == 1 && l == 2);
+    kani::cover!(m == 0 && l == 2);
     kani::cover!(l == 0);
     std::mem::forget(r);
 }
@@ -792,12 +797,14 @@ fn inv_get_batch_u8_fast<const W: usize>() {
 fn bitreader_inv_get_batch_u8_fast_w1() {
     inv_get_batch_u8_fast::<1>()
 }
+// NOT CONFIRMED: get_batch units are heavy (fast_w1 passed in 992 s with 44507 checks; w3/w8 timed out just below 1000 s; the symbolic-width small variant exceeded 10 GB); not confirmed under load
 // @unit name=bitreader_inv_get_batch_u8_fast_w3 props=C05,C08 kind=bounded bound=width=3_batch=8_aligned_state_buffer<=12_bytes fns=BitReader::get_batch,FromBitpacked<u8>::unpack_batch,unpack8 tier=thorough timeout=900 mem=6
 #[kani::proof]
 #[kani::unwind(2)]
 fn bitreader_inv_get_batch_u8_fast_w3() {
     inv_get_batch_u8_fast::<3>()
 }
+// NOT CONFIRMED: get_batch units are heavy (fast_w1 passed in 992 s with 44507 checks; w3/w8 timed out just below 1000 s; the symbolic-width small variant exceeded 10 GB); not confirmed under load
 // @unit name=bitreader_inv_get_batch_u8_fast_w8 props=C05,C08 kind=bounded bound=width=8_batch=8_aligned_state_buffer<=12_bytes fns=BitReader::get_batch,FromBitpacked<u8>::unpack_batch,unpack8 tier=thorough timeout=900 mem=6
 #[kani::proof]
 #[kani::unwind(2)]
@@ -839,14 +846,19 @@ macro_rules! get_batch_shape {
         }
     };
 }
+// NOT CONFIRMED: get_batch units are heavy (fast_w1 passed in 992 s with 44507 checks; w3/w8 timed out just below 1000 s; the symbolic-width small variant exceeded 10 GB); not confirmed under load
 // @unit name=bitreader_get_batch_u16_paths props=C05 kind=bounded bound=shape_L=25_W=3_LEN=10 fns=BitReader::get_batch,FromBitpacked<u16>::unpack_batch,unpack16,unpack8 tier=thorough timeout=900 mem=6
 get_batch_shape!(bitreader_get_batch_u16_paths, u16, 25, 3, 10, 0u16, x => x as u64);
+// NOT CONFIRMED: get_batch units are heavy (fast_w1 passed in 992 s with 44507 checks; w3/w8 timed out just below 1000 s; the symbolic-width small variant exceeded 10 GB); not confirmed under load
 // @unit name=bitreader_get_batch_u32_paths props=C05 kind=bounded bound=shape_L=57_W=1_LEN=8 fns=BitReader::get_batch,FromBitpacked<u32>::unpack_batch,unpack32,unpack16,unpack8 tier=thorough timeout=900 mem=6
 get_batch_shape!(bitreader_get_batch_u32_paths, u32, 57, 1, 8, 0u32, x => x as u64);
+// NOT CONFIRMED: get_batch units are heavy (fast_w1 passed in 992 s with 44507 checks; w3/w8 timed out just below 1000 s; the symbolic-width small variant exceeded 10 GB); not confirmed under load
 // @unit name=bitreader_get_batch_i32_delegate props=C05 kind=bounded bound=shape_L=32_W=5_LEN=20 fns=BitReader::get_batch,FromBitpacked<i32>::unpack_batch,unpack32 tier=thorough timeout=900 mem=6
 get_batch_shape!(bitreader_get_batch_i32_delegate, i32, 32, 5, 20, 0i32, x => x as u32 as u64);
+// NOT CONFIRMED: get_batch units are heavy (fast_w1 passed in 992 s with 44507 checks; w3/w8 timed out just below 1000 s; the symbolic-width small variant exceeded 10 GB); not confirmed under load
 // @unit name=bitreader_get_batch_u64_paths props=C05 kind=bounded bound=shape_L=121_W=1_LEN=16 fns=BitReader::get_batch,FromBitpacked<u64>::unpack_batch,unpack64,unpack32,unpack16,unpack8 tier=thorough timeout=900 mem=8
 get_batch_shape!(bitreader_get_batch_u64_paths, u64, 121, 1, 16, 0u64, x => x);
+// NOT CONFIRMED: get_batch units are heavy (fast_w1 passed in 992 s with 44507 checks; w3/w8 timed out just below 1000 s; the symbolic-width small variant exceeded 10 GB); not confirmed under load
 // @unit name=bitreader_get_batch_bool_paths props=C05 kind=bounded bound=shape_L=9_W=1_LEN=2 fns=BitReader::get_batch,FromBitpacked<bool>::unpack_batch,unpack8 tier=thorough timeout=900 mem=6
 get_batch_shape!(bitreader_get_batch_bool_paths, bool, 9, 1, 2, false, x => x as u64);
 
